@@ -18,7 +18,7 @@ MANIFEST = dict(
          "point of the real stack (manager + locator + spa + facade on the virtual loop against the real simulator): the harness injects async_reset() / context exit "
          "exactly when the pump task's coroutine stack is at that point - exits with a client handler that returns at once AND with one that really suspends - lets the "
          "loop settle, and compares the ledger (transports never closed, tasks alive at the instant the exit returns and later, observers left, pump alive, handler "
-         "activity after the exit, callbacks on late datagrams) with the model's prediction. The crash-point table has one entry per suspension point of the regenerated skeletons of _connect and discover (crash_points_cover_every_suspension: two independent translators agree). Also: two commands of each kind in flight when the connection is reset / the context exited; task_registry_tracks_every_task. discover_releases_endpoint_on_every_exit and awaits_inside_finally_are_the_finished_announcements (all 58 coroutines). Prompt termination (2 s after every reset) and a reset issued by the client from inside its RF-error handler. Session 5: cancellation_ends_every_coroutine / cancellation_propagates - Model/Cancel.lean gives the skeletons Python's rule for which handler gets a CancelledError (first in source order that is bare / BaseException / CancelledError) and an inductive relation Cancelled sk o (a cancellation delivered at one of the awaits of sk makes it end with o); cancelOuts_sound proves the executable analysis, and all 58 regenerated coroutines end by the exception under every cancellation. Crash point added: a reset from another task while a consumer's callback (the client's handler of an RF error) is suspended.",
+         "activity after the exit, callbacks on late datagrams) with the model's prediction. The crash-point table has one entry per suspension point of the regenerated skeletons of _connect and discover (crash_points_cover_every_suspension: two independent translators agree). Also: two commands of each kind in flight when the connection is reset / the context exited; task_registry_tracks_every_task. discover_releases_endpoint_on_every_exit and awaits_inside_finally_are_the_finished_announcements (all 58 coroutines). Prompt termination (2 s after every reset) and a reset issued by the client from inside its RF-error handler. Session 5: cancellation_ends_every_coroutine / cancellation_propagates - Model/Cancel.lean gives the skeletons Python's rule for which handler gets a CancelledError (first in source order that is bare / BaseException / CancelledError) and an inductive relation Cancelled sk o (a cancellation delivered at one of the awaits of sk makes it end with o); cancelOuts_sound proves the executable analysis, and all 58 regenerated coroutines end by the exception under every cancellation. Crash point added: a reset from another task while a consumer's callback (the client's handler of an RF error) is suspended. Round 14: a reset that is itself interrupted (time-limited, slow teardown handler), then a complete reset / the exit.",
     note="partial: 'closed' = close() called on the transport object the loop handed out; await points inside the standard library are collapsed to the geckolib await that "
          "contains them; error-path await points of _connect that a healthy handshake never reaches are predicted by the model but not exercised; asyncio delivering a "
          "pending cancellation at the next suspending await is assumed.",
@@ -329,6 +329,54 @@ def explore_error(scenario, origin, yielding, settle=150.0):
     return res
 
 
+def explore_interrupted_reset(then):
+    """a reset that is itself INTERRUPTED: the client's teardown handler is slow and the caller gives up on the reset
+    (`asyncio.wait_for(manager.async_reset(), 0.3)` - a time-limited reset), so the cancellation lands in the middle of the spa's
+    disconnection; `then` = what follows: 'reset' (a second, complete reset and later the exit) or 'exit' (the context exit at once).
+    Whatever was opened for the abandoned connection must still be closed, and its tasks must end."""
+    from geckolib import GeckoAsyncSpaMan
+    res = {}
+
+    async def body(loop):
+        slow = [True]
+
+        class Man(GeckoAsyncSpaMan):
+            async def handle_event(self, event, **kw):
+                name = str(event)
+                if slow[0] and ("TEARDOWN" in name or "DISCONNECTED" in name):
+                    await asyncio.sleep(1.0)
+        sim = fakenet.make_sim(SNAP)
+        loop.network = fakenet.Network(loop, sim, phases=[], seed=1)
+        m = Man("uuid-1", spa_identifier=IDENT, spa_address="10.0.0.9", spa_name="Spa")
+        await m.__aenter__()
+        for _ in range(800):
+            await asyncio.sleep(0.05)
+            if m.facade is not None:
+                break
+        res["connected"] = m.facade is not None
+        await asyncio.sleep(2.0)
+        mine = [t for t in loop.transports if not t.closed]
+        tasks = [t for t in asyncio.all_tasks() if not t.done() and t.get_name().split(":")[0] in ("SPA", "FACADE")]
+        try:
+            await asyncio.wait_for(m.async_reset(), 0.3)
+            res["first_reset"] = "returned"
+        except asyncio.TimeoutError:
+            res["first_reset"] = "interrupted"
+        slow[0] = False
+        if then == "reset":
+            await m.async_reset()
+            await asyncio.sleep(2.0)
+            res["open_after_second_reset"] = [t.id for t in mine if not t.closed]
+            res["alive_after_second_reset"] = sorted(t.get_name() for t in tasks if not t.done())
+            await asyncio.sleep(20.0)
+        await m.__aexit__(None, None, None)
+        await asyncio.sleep(1.0)
+        res["open_at_end"] = [t.id for t in loop.transports if not t.closed]
+        res["alive_at_end"] = sorted(t.get_name() for t in asyncio.all_tasks() if not t.done() and t.get_name().split(":")[0] in ("SPA", "FACADE", "LOC", "SPAMAN"))
+    vloop.run_virtual(body, seed=1, stable=True)
+    return res
+
+
 def explore_commands_in_flight(kind):
     """steady state, the spa stops answering, the client issues the SAME kind of command twice (two key presses, two set-values: each
     starts a background task of the connection under the same name), then a reset or a context exit: every one of those tasks ends"""
@@ -487,6 +535,19 @@ def run(ctx):
                           "every background task of the abandoned connection terminates", c["alive_after"])
         elif not c.get("connected") or len(c.get("command_tasks", [])) < 4:
             ctx.count("commands_in_flight_not_set_up")
+    # ------------- a reset that is itself interrupted (a time-limited reset with a slow client), then a complete reset / the exit
+    for then in ("reset", "exit"):
+        try:
+            r = explore_interrupted_reset(then)
+        except Exception as e:  # noqa
+            ctx.violation(f"interrupted-reset:raised:{then}", {"kind": "interrupted-reset", "then": then}, "the scenario runs", f"{type(e).__name__}: {e}")
+            continue
+        ctx.count("evaluations")
+        ctx.hist("interrupted_reset", f"{then}:{r.get('first_reset')}")
+        bad = {k: v for k, v in r.items() if k in ("open_after_second_reset", "alive_after_second_reset", "open_at_end", "alive_at_end") and v}
+        if r.get("connected") and r.get("first_reset") == "interrupted" and bad:
+            ctx.violation(f"{'endpoint-open' if any(k.startswith('open') for k in bad) else 'tasks-alive'}:interrupted-reset:{then}",
+                          {"kind": "interrupted-reset", "then": then}, "every endpoint of the abandoned connection is closed and its tasks end", bad)
     # ------------- cycles
     n = 4 if ctx.quick else 30
     cyc = explore(cycles=n, horizon=8.0)
@@ -522,6 +583,10 @@ def run(ctx):
 
 
 def replay(inp):
+    if inp.get("kind") == "interrupted-reset":
+        r = explore_interrupted_reset(inp["then"])
+        bad = {k: v for k, v in r.items() if k in ("open_after_second_reset", "alive_after_second_reset", "open_at_end", "alive_at_end") and v}
+        return bool(bad), bad or "everything closed"
     if inp.get("kind") == "commands-in-flight":
         c = explore_commands_in_flight(inp["action"])
         return bool(c.get("alive_after")), c
